@@ -15,3 +15,16 @@ def _p(pid, level, explanation, trusted=None):
 
 _p("C04", "other",
    "Static necessary conditions of 'macro expansion preserves meaning': per-field information-flow necessity (READ: a read of the field reaches the result; CTOR: a rebuilt node's constructor argument depends on the input's field) for MacroExpander and GateReplacer, splice-guard dependence, arity check dominating substitution (CFG), closure of gate statements through the macro lookup, and exhaustive visiting of Parameter positions. Decides those clauses for every input program; does not decide equality of meaning.")
+
+NOT_APPLICABLE = {
+    "C12": "The acceptance set of DiscoverSubcircuits is a statement about the values a small state machine takes over every "
+           "nesting and loop count; its only code-shaped consequences (no dereference of self.current while None; the collision "
+           "flag follows block.parallel) are decided under C16/C13. Anything stronger would freeze the walker's text and fire on "
+           "behaviour-preserving rewrites, so static analysis does not apply (DESIGN.md section 5).",
+}
+
+# properties whose rule sets are still being built in this round (removed from here as they land)
+PENDING = {
+    f"C{n:02d}": "check under construction in this round (see DESIGN.md section 10); not yet claimed"
+    for n in range(1, 21) if n != 12
+}
